@@ -395,27 +395,37 @@ func (vc *VC) mergeStates(preds []*State, conds []Term, tag string) *State {
 		return preds[0].clone()
 	}
 	out := &State{cells: map[ssa.Value]Term{}, heaps: map[string]Term{}}
-	// cells live in all predecessors
+	// cells live in some predecessor: along edges from predecessors in which
+	// the cell was never allocated its value is left unconstrained (the
+	// variable is out of scope on those paths)
 	var keys []ssa.Value
-	for k := range preds[0].cells {
-		all := true
-		for _, p := range preds[1:] {
-			if _, ok := p.cells[k]; !ok {
-				all = false
-				break
+	seen := map[ssa.Value]bool{}
+	for _, p := range preds {
+		for k := range p.cells {
+			if !seen[k] {
+				seen[k] = true
+				keys = append(keys, k)
 			}
-		}
-		if all {
-			keys = append(keys, k)
 		}
 	}
 	sort.Slice(keys, func(i, j int) bool { return valueKey(keys[i]) < valueKey(keys[j]) })
 	for _, k := range keys {
-		var vs []Term
-		for _, p := range preds {
-			vs = append(vs, p.cells[k])
+		var vs, cs []Term
+		for i, p := range preds {
+			if v, ok := p.cells[k]; ok {
+				vs = append(vs, v)
+				cs = append(cs, conds[i])
+			}
 		}
-		out.cells[k] = vc.mergeTerms(vs, conds, "m:"+tag+":"+k.Name())
+		if len(vs) == len(preds) {
+			out.cells[k] = vc.mergeTerms(vs, cs, "m:"+tag+":"+k.Name())
+			continue
+		}
+		m := vc.fresh("m:"+tag+":"+k.Name(), vs[0].Sort)
+		for i, v := range vs {
+			vc.assume(cs[i], eq(m, v))
+		}
+		out.cells[k] = m
 	}
 	names := map[string]bool{}
 	for _, p := range preds {
@@ -599,6 +609,10 @@ func (fr *Frame) instr(in ssa.Instruction, st *State, pc Term, b *ssa.BasicBlock
 	case *ssa.Next:
 		fr.next(in, st, pc)
 	case *ssa.Return:
+		if p := in.Pos(); p.IsValid() {
+			pos := vc.prog.Fset.Position(p)
+			vc.curPos = fmt.Sprintf("%s:%d", pos.Filename, pos.Line)
+		}
 		var res []Term
 		for _, r := range in.Results {
 			res = append(res, fr.val(r))
